@@ -165,7 +165,10 @@ def one_case(ctx, prog, label="gen", explicit_wm=None):
                 lims = []
                 for p, x in zip(priors, xs):
                     L, U = p.lower_limit, p.upper_limit
-                    if math.isfinite(L) and math.isfinite(U):
+                    if math.isfinite(L) and math.isfinite(U) and type(p).__name__ == "UniformPrior" and rng.random() < 0.35:
+                        # limits that tighten nothing for this parameter (its own limits, or none at all)
+                        lims.append((L, U) if rng.random() < 0.5 else (float("-inf"), float("inf")))
+                    elif math.isfinite(L) and math.isfinite(U):
                         lims.append((L + 0.1 * (U - L), U - 0.2 * (U - L)))
                     else:
                         x = max(min(x, 1e12), -1e12)
